@@ -439,6 +439,15 @@ def judge_history(h, want, ignore_envelope=False):
                     if any(overlap(cc, sv) for sv in svcs) or (kind == "boot" and any(overlap(cc, ptok(t)) for t in f[1:3] if t != "-")):
                         clauses.add("node-inside-service-range")
 
+        # a node name associated with two entries at once (re-sync recorded it a second time): releases are routed to
+        # whichever comes first, the other association outlives the node (root cause shared with P11)
+        cnt = {}
+        for e in snap_a:
+            for a_ in e.get("assoc", []):
+                cnt[a_] = cnt.get(a_, 0) + 1
+        if any(v > 1 for v in cnt.values()):
+            clauses.add("P22-double-association")
+
         # ---------------- crash / hang / unexpected API calls (C12)
         if ob["res"] == "panic":
             bad("C12", i, f"panic while handling: {op}")
@@ -507,6 +516,18 @@ def judge_history(h, want, ignore_envelope=False):
             if nme not in api_ccs and nme not in ob["view_ccs"]:
                 # gone from the API and the controller has been told
                 bad("C10", i, f"ClusterCIDR {nme} still contributes a pool although it no longer exists", ("P15-deleted-before-finalizer", "P15-foreign-finalizer"))
+
+        # C10: processing a ClusterCIDR that is already mapped (retry after a failed finalizer write, duplicate or stale
+        # notification) leaves its entry exactly as it was - used blocks, associations and flag included
+        if kind == "procCC" and ob["res"] not in ("none", "panic"):
+            vo = before["view_ccs"].get(f[1])
+            if vo is not None and not vo["deleting"]:
+                eb = [e for e in snap_b if e.get("name") == f[1]]
+                ea = [e for e in snap_a if e.get("name") == f[1]]
+                if len(eb) == 1 and len(ea) == 1 and eb[0] != ea[0]:
+                    def _d(e):
+                        return "assoc=%s v4=%s v6=%s term=%s" % (",".join(e["assoc"]), (e["v4"] or {}).get("used"), (e["v6"] or {}).get("used"), e["term"])
+                    bad("C10", i, f"processing ClusterCIDR {f[1]} again changed its pools: {_d(eb[0])} -> {_d(ea[0])}")
 
         # ---------------- C04 at idle points: what still justifies a used block
         if kind == "nodeAdd" and f[1] not in before["api_nodes"] and f[1] in api_nodes:
@@ -626,7 +647,8 @@ def check_patches(i, op, f, ob, before, specs, svcs, boot_mapped, holders_shown,
                     if t in shown and not t.startswith("?") and any(overlap(ptok(t), c) for c in cs):
                         bad("C01", i, f"node {node} assigned {toks}, overlapping {t} held by existing node {other}",
                             ("P9-cc-created-over-holder", "P12-overlap-different-block-size", "P13-lost-node-write", "P18-node-created-with-cidrs",
-                             "label-edit", "P17b-multi-cidr-preset", "P15-deleted-before-finalizer", "generation-bumped", "P10-holder-not-selected", "preexisting-overlap"))
+                             "label-edit", "P17b-multi-cidr-preset", "P15-deleted-before-finalizer", "generation-bumped", "P10-holder-not-selected", "preexisting-overlap",
+                             "P22-double-association"))
                         if boots >= 2 and listed_at_boot is not None and t in listed_at_boot.get(other, ()):
                           bad("C03", i, f"after a restart node {node} was assigned {toks}, overlapping {t} held by node {other}, which the restart had listed",
                             ("P9-cc-created-over-holder", "P12-overlap-different-block-size", "P13-lost-node-write", "P18-node-created-with-cidrs",
